@@ -20,7 +20,7 @@ from ..machine import replay_trace_machine, run_trace_machine
 
 LEVEL = "exploration"
 WORKERS = {"quick": 8, "thorough": 16}
-BUDGET_S = {"quick": 50, "thorough": 650}
+BUDGET_S = {"quick": 55, "thorough": 650}
 RULE = (
     "Status half: Hypothesis draws 1-3 trees over a small shared content pool plus loose files (all held by "
     "a full cache store), two subject stores A and B (LocalHashFileDB / HashFileDB on the local fs) filled "
@@ -358,8 +358,8 @@ def run(ctx):
     zeros()
     total = ctx.budget_s
     if total:
-        ctx.budget_s = total * 0.45
-    ok = ctx.run_given(cases(), run_case, ctx.n(quick=130, thorough=2000))
+        ctx.budget_s = total * 0.5
+    ok = ctx.run_given(cases(), run_case, ctx.n(quick=110, thorough=2000))
     ctx.budget_s = total
     if ok and ctx.failure is None:
         run_trace_machine(ctx, IndexMachine, ctx.n(quick=70, thorough=1000), 12)
